@@ -187,17 +187,28 @@ class C06(Property):
     elif shape == "sharedhub":
       # the user shares ONE stream between numerator and denominator (and
       # possibly twice in the numerator) through thub(stream, n)
-      tree = single()
-      tree["route"] = W.pick("hroute", ["expr", "lists"])
-      ctr[0] += 1
-      hub = ["h", ctr[0]]
-      tree["num"][0] = [tree["num"][0][0], hub]
-      if len(tree["den"]) < 2:
-        tree["den"].append([1, hub])
-      else:
-        tree["den"][-1] = [tree["den"][-1][0], hub]
-      if len(tree["num"]) > 1 and W.chance("third-use", 1, 2):
-        tree["num"][-1] = [tree["num"][-1][0], hub]
+      def hubbed():
+        t = single()
+        t["route"] = W.pick("hroute", ["expr", "lists"])
+        ctr[0] += 1
+        hub = ["h", ctr[0]]
+        t["num"][0] = [t["num"][0][0], hub]
+        if len(t["den"]) < 2:
+          t["den"].append([1, hub])
+        else:
+          t["den"][-1] = [t["den"][-1][0], hub]
+        if len(t["num"]) > 1 and W.chance("third-use", 1, 2):
+          t["num"][-1] = [t["num"][-1][0], hub]
+        return t
+      tree = hubbed()
+      wrap = W.weighted("hubwrap", [(3, None), (1, "copyadd"), (1, "copymul"),
+                                    (1, "pow")])
+      if wrap:
+        # ... and then copies that filter (copy(), a sum, a power)
+        tree["num"], tree["den"] = tree["num"][:2], tree["den"][:2]
+        tree = {"op": wrap, "a": tree}
+        if wrap == "pow":
+          tree["n"] = W.pick("hexp", [2, 3])
     elif shape in ("cascade", "parallel"):
       tree = {"op": shape, "a": single(), "b": single()}
     elif shape == "divterm":
@@ -248,6 +259,8 @@ class C06(Property):
       xlen = W.choose("xlen", 11)
     return {"tree": tree, "lens": lens, "xlen": xlen,
             "cstream": W.choose("cstream", 4),
+            # hashing a filter (set member, dict key) before it is called
+            "hash_first": W.chance("hash", 1, 6),
             "memory": shape == "zeronum" or W.chance("memory", 1, 4)}
 
   def shrink_candidates(self, wl):
@@ -343,6 +356,13 @@ class C06(Property):
                 "a": single([[0, C(1)], [1, C(-2)]], [[0, C(1)], [1, S(1)]]),
                 "b": single([[0, C(2)], [2, S(2)]], [[0, C(1)], [1, C(-2)]])},
        "lens": {"1": None, "2": None}, "xlen": 9, "cstream": 0},
+      {"tree": {"op": "copyadd",
+                "a": single([[0, ["h", 1]], [2, ["h", 1]]],
+                            [[0, C(1)], [1, C(2)]], "lists")},
+       "lens": {"1": None}, "xlen": 8, "cstream": 0},
+      {"tree": single([[0, C(1)], [1, C(2)]], [[0, S(1)], [1, C(-1)]],
+                      "lists"),
+       "lens": {"1": None}, "xlen": 7, "cstream": 0, "hash_first": True},
       {"tree": {"op": "cascade", "a": single([[1, S(1)]]),
                 "b": single([[1, S(2)], [2, C(1)]])},
        "lens": {"1": None, "2": 9}, "xlen": None, "cstream": 0},
@@ -755,6 +775,12 @@ class C06(Property):
         res.counters["fault.endless"] += 1
     try:
       fB = self.build(tree, srcB)
+      if wl.get("hash_first"):
+        try:
+          hash(fB)
+          res.counters["probe.filter-hashed-before-the-call"] += 1
+        except TypeError:
+          pass                      # unhashable is fine, later failure is not
       if memory is not None:
         out = fB(xsrc, memory=list(memory), zero=Fraction(0))
       else:
